@@ -1,6 +1,6 @@
 (* C09 - LeafNodes lists every terminal value once, with a path that resolves to it.
-   Statements only; proofs in Proofs/C09P.v, vocabulary in Spec/Leaves.v. *)
-From Mxj Require Import Model.TreeOps Spec.PathSem Spec.Leaves Proofs.C07P Proofs.KVTotal Proofs.C09P.
+   Statements only; proofs in Proofs/C09P.v and Proofs/C09Q.v, vocabulary in Spec/Leaves.v. *)
+From Mxj Require Import Model.TreeOps Spec.PathSem Spec.Leaves Proofs.C07P Proofs.KVTotal Proofs.C09P Proofs.C09Q.
 
 (* ---- 1. enumeration: exactly one entry per scalar, arbitrary keys (also the empty key),
         any attribute prefix, text key and list notation ---- *)
@@ -54,6 +54,87 @@ Theorem C09_resolution_total : forall pf sep m path, values_for_path pf sep m pa
 Proof. intros; apply values_for_path_no_panic. Qed.
 Print Assumptions C09_resolution_total.
 
+(* the rendered path of a leaf address parses back to the keys of that address *)
+Theorem C09_parse_path_render : forall tk p, addr_ok p = true -> p <> [] ->
+  parse_path (render tk false false p) = Ok (to_pkeys p).
+Proof. exact parse_path_render. Qed.
+Print Assumptions C09_parse_path_render.
+
+(* ---- 5. resolution: for a Map with distinct keys per map (every Go map), keys free of "." and "[",
+        not "*", not empty, no list directly inside a list, lists shorter than 2^31, under any
+        attribute prefix / text key: ValuesForPath on the path of every entry of LeafNodes
+        yields exactly the value of that entry ---- *)
+Theorem C09_leaf_resolves : forall pf sep ap tk m path v,
+  is_map m = true -> wfb m = true -> keys_clean m = true -> no_nested_lists m = true ->
+  lists_indexable m = true ->
+  In (path, v) (leaf_nodes ap tk false m false) ->
+  values_for_path pf sep m path [] = Ok [v].
+Proof. exact leaf_resolves. Qed.
+Print Assumptions C09_leaf_resolves.
+
+(* the same at the level of addresses: the address of every scalar, rendered, resolves to it *)
+Theorem C09_addr_resolves : forall pf sep tk m p v,
+  is_map m = true -> good m -> In (p, v) (leaves m) ->
+  values_for_path pf sep m (render tk false false p) [] = Ok [v].
+Proof. exact addr_resolves. Qed.
+Print Assumptions C09_addr_resolves.
+
+(* every one of the stated side conditions is needed, and the resolution clause fails for the
+   dot-notation option (".N" is read as a key) and for the no-attributes option (the path without
+   the text key denotes the element): concrete Maps where the LeafNodes path does not give the value *)
+Local Open Scope string_scope.
+Theorem C09_leaf_resolves_conditions_needed :
+  (let m := VMap [(s"doc", VMap [(s"", VInt 0)])] in
+   lf false false m = [(s"doc.", VInt 0)] /\ vp m "doc." = Ok [VMap [(s"", VInt 0)]]) /\
+  (let m := VMap [(s"a.b", VInt 1)] in lf false false m = [(s"a.b", VInt 1)] /\ vp m "a.b" = Ok []) /\
+  (let m := VMap [(s"a[0]", VInt 1)] in lf false false m = [(s"a[0]", VInt 1)] /\ vp m "a[0]" = Ok []) /\
+  (let m := VMap [(s"*", VInt 1); (s"b", VInt 2)] in
+   In (s"*", VInt 1) (lf false false m) /\ vp m "*" = Ok [VInt 1; VInt 2]) /\
+  (let m := VMap [(s"a", VList [VList [VInt 1]])] in
+   lf false false m = [(s"a[0][0]", VInt 1)] /\ vp m "a[0][0]" = Ok [VList [VInt 1]]) /\
+  (let m := VMap [(s"a", VList [VInt 1; VInt 2])] in
+   lf true false m = [(s"a.0", VInt 1); (s"a.1", VInt 2)] /\ vp m "a.0" = Ok []) /\
+  (let m := VMap [(s"a", VMap [(s"#text", VStr (s"t")); (s"-n", VStr (s"1"))])] in
+   lf false true m = [(s"a", VStr (s"t"))] /\
+   vp m "a" = Ok [VMap [(s"#text", VStr (s"t")); (s"-n", VStr (s"1"))]]).
+Proof. exact leaf_resolves_conditions_needed. Qed.
+Print Assumptions C09_leaf_resolves_conditions_needed.
+Local Close Scope string_scope.
+
+(* dot notation: irrelevant for a Map without lists, where the resolution clause then holds for both settings *)
+Theorem C09_dotn_irrelevant : forall ap tk m noattr,
+  no_lists m = true -> leaf_nodes ap tk true m noattr = leaf_nodes ap tk false m noattr.
+Proof. exact dotn_irrelevant. Qed.
+Print Assumptions C09_dotn_irrelevant.
+
+Theorem C09_leaf_resolves_dot : forall pf sep ap tk dotn m path v,
+  is_map m = true -> wfb m = true -> keys_clean m = true -> no_lists m = true ->
+  In (path, v) (leaf_nodes ap tk dotn m false) ->
+  values_for_path pf sep m path [] = Ok [v].
+Proof. exact leaf_resolves_dot. Qed.
+Print Assumptions C09_leaf_resolves_dot.
+
+(* ---- 6. the no-attributes option removes exactly the attribute entries (the leaves one of whose
+        keys has the non-empty attribute prefix) and, from the paths, the nodes equal to the text key ---- *)
+Theorem C09_noattr_exact : forall ap tk dotn m,
+  leaf_nodes ap tk dotn m true =
+  map (fun pv => (render tk dotn true (fst pv), snd pv))
+      (filter (fun pv => keeps (is_attr ap) (fst pv)) (leaves m)).
+Proof. exact noattr_exact. Qed.
+Print Assumptions C09_noattr_exact.
+
+Theorem C09_attr_exact : forall ap tk dotn m,
+  leaf_nodes ap tk dotn m false = map (fun pv => (render tk dotn false (fst pv), snd pv)) (leaves m).
+Proof. exact attr_exact. Qed.
+Print Assumptions C09_attr_exact.
+
+Theorem C09_render_noattr : forall tk dotn p,
+  render tk dotn true p =
+  fold_left add_seg (filter (fun node => negb (str_eqb node tk)) (map (node_of dotn) p)) [] /\
+  render tk dotn false p = fold_left add_seg (map (node_of dotn) p) [].
+Proof. exact render_noattr. Qed.
+Print Assumptions C09_render_noattr.
+
 (* ---- non-vacuity ---- *)
 Local Open Scope string_scope.
 Definition ex9 : value :=
@@ -75,4 +156,30 @@ Example C09_ex_leaves :
      (s"doc.items[0].sub.list[1]", VNil); (s"doc.items[1]", VBool true)] /\
   leaf_paths (s"-") (s"#text") true ex9 true =
     [s"doc."; s"doc.items.0"; s"doc.items.0.sub.list.0"; s"doc.items.0.sub.list.1"; s"doc.items.1"].
+Proof. vm_compute. repeat split. Qed.
+
+(* a Map meeting every hypothesis of C09_leaf_resolves, with two list levels separated by plain keys
+   (the shape that failed on the pinned tree), and its leaves resolving one by one *)
+Definition ex9r : value :=
+  VMap [(s"doc", VMap [(s"-id", VStr (s"7"));
+                       (s"items", VList [
+                          VMap [(s"#text", VStr (s"t"));
+                                (s"sub", VMap [(s"list", VList [VStr (s"a"); VNil])])];
+                          VMap [(s"sub", VMap [(s"list", VList [VStr (s"c"); VStr (s"d")])])];
+                          VBool true])])].
+Example C09_ex_resolves :
+  is_map ex9r = true /\ wfb ex9r = true /\ keys_clean ex9r = true /\ no_nested_lists ex9r = true /\
+  lists_indexable ex9r = true /\
+  In (s"doc.items[1].sub.list[1]", VStr (s"d")) (leaf_nodes (s"-") (s"#text") false ex9r false) /\
+  values_for_path (fun _ => None) (s":") ex9r (s"doc.items[1].sub.list[1]") [] = Ok [VStr (s"d")] /\
+  forallb (fun pv => match values_for_path (fun _ => None) (s":") ex9r (fst pv) [] with
+                     | Ok [v] => value_eqb v (snd pv) | _ => false end)
+          (leaf_nodes (s"-") (s"#text") false ex9r false) = true /\
+  length (leaf_nodes (s"-") (s"#text") false ex9r false) = 7.
+Proof. vm_compute. repeat split. do 5 right. left. reflexivity. Qed.
+
+(* C09_noattr_exact on ex9: which addresses survive *)
+Example C09_ex_noattr :
+  map (fun pv => keeps (is_attr (s"-")) (fst pv)) (leaves ex9) = [false; true; true; false; true; true; true] /\
+  good ex9r /\ no_lists (VMap [(s"a", VMap [(s"b", VInt 1)])]) = true.
 Proof. vm_compute. repeat split. Qed.
